@@ -207,3 +207,74 @@ def report(chk, outs, iflags, pflags, claim, what=None):
         if sci not in psc:
             o = outs[sci]
             chk.drift("L4-client", "%s at event %d" % (kind, ev), {"detail": detail, "calls": o.get("calls"), "plan": str(o.get("plan"))[:400]})
+
+
+CFLAG_RE = PFLAG_RE
+
+
+def validate_conn(chk, out_path, wd, label, shard=300):
+    """TLC runs the connection-level acceptors (TraceConn: P_C09, P_C10) over the traces."""
+    lines = open(out_path).read().splitlines()
+    shards = []
+    for k in range(0, len(lines), shard):
+        p = os.path.join(wd, "%s.cpart%d.ndjson" % (label, k // shard))
+        open(p, "w").write("\n".join(lines[k:k + shard]) + "\n")
+        shards.append((k, p))
+
+    def one(s):
+        k, p = s
+        flat = p + ".flat"
+        outs = []
+        with open(flat, "w") as w:
+            for i, line in enumerate(open(p)):
+                o = json.loads(line)
+                outs.append(o)
+                c = spec_cfg(o.get("config"))
+                full = dict(DEFAULT_CFG)
+                full.update(o.get("config") or {})
+                c["serial"] = [ord(ch) for ch in full["serial"]]
+                c["tag"] = o.get("tag", "")
+                w.write(json.dumps({"e": "reset", "sc": k + i + 1, "cfg": c}) + "\n")
+                for e in o["trace"]:
+                    e.pop("plan", None)
+                    w.write(json.dumps(no_null(e)) + "\n")
+        r = vlib.tlc("client/TraceConn.tla", workers=1, xmx="4g", depth_first=True, env={"CLIENT_TRACE": flat}, tag="%sc%d" % (label, k), timeout=3000)
+        return k, outs, r, flat, p
+    all_outs, pflags = [], []
+    for k, outs, r, flat, p in vlib.parallel(one, shards, 12):
+        if not r.ok:
+            raise vlib.ToolError("TraceConn failed on %s:\n%s" % (flat, (r.error_text or r.out)[-3000:]))
+        chk.cov["states"] += r.distinct
+        chk.cov["transitions"] += r.generated
+        for m in PFLAG_RE.finditer(r.out):
+            pflags.append((int(m.group(1)) - 1, int(m.group(2)), json.loads(json.loads(m.group(3)))))
+        all_outs.extend(outs)
+        os.remove(flat)
+        os.remove(p)
+    return all_outs, pflags
+
+
+def model_check_stream(chk):
+    r = vlib.tlc("client/ResetStream.tla", cfg="ResetStream.cfg", workers=4, xmx="8g")
+    vlib.tlc_must_pass(r, "ResetStream")
+    if r.violated:
+        raise vlib.ToolError("the reconnecting-stream specification violates %s" % r.violated)
+    chk.add_tlc("ResetStream: retry budget 3, every fault kind at every frame of connect / registration / identity check / command exchange, up to 4 "
+                "faults; invariants CommandsOnlyOnVetted, NoUseAfterTaint, OneLive, KeepOnSuccess, Bounded; liveness Returns under weak fairness", r)
+    r2 = vlib.tlc("client/ResetStream.tla", cfg="ResetStream_unguarded.cfg", workers=4, xmx="8g")
+    chk.cov["model_runs"].append({"model": "ResetStream with an unguarded connect phase (the code before the repair of D7)",
+                                   "liveness_Returns": "violated as expected" if r2.violated == "temporal" else "NOT violated"})
+    return r
+
+
+def report_conn(chk, outs, pflags, claim, what=None):
+    for sci, ev, flags in pflags:
+        o = outs[sci]
+        for f in flags:
+            pre = f.split("-")[0]
+            if pre in claim:
+                fault = json.dumps((o.get("plan") or {}).get("handshake") or [x.get("fault") for x in (o.get("plan") or {}).get("exchanges", []) if x.get("fault")])[:200]
+                ops = [c["op"] for c in o.get("calls", [])]
+                chk.violation("%s:%s:%s" % (ops[-2] if len(ops) > 1 else ops[0], f, fault), "%s; calls %s, fault %s" % ((what or {}).get(f, f), ops, fault), brief_scenario(o))
+            else:
+                chk.notes.append("scenario flagged for another property (%s)" % f)
